@@ -99,7 +99,7 @@ CLAIMED = {
              "2-3, timestamp taken after the limiter wait, nonces unique) + one implementation request per concretised value and "
              "entry point (36 Binance + 11 Bitstamp calls) verified by an independent server implementation + seeded random client ids.",
         note="TLA+ says nothing about HMAC itself or about characters inside a class behaving alike beyond the measured atoms; the "
-             "loopback server (about 40 lines) is trusted as the exchanges' documented check. Freshness uses real time (500 ms).",
+             "loopback server (about 40 lines) is trusted as the exchanges' documented check. Freshness is judged on a logical clock shared by the clients and the loopback exchange (no real-time tolerance).",
         design_ref="DESIGN.md §5 C16, §6"),
     "C17": dict(
         engine="WireFormat",
